@@ -438,12 +438,12 @@ fn gen_fields(out: &mut impl Write, id: &mut u64, r: &mut Rng, n: u64) {
 fn gen_rewards(out: &mut impl Write, id: &mut u64, r: &mut Rng, n: u64) {
     let d = P::default_();
     for k in 0..n {
-        let len = if k % 2 == 0 { pick(r, &[300u64, 1000, 1800, 1, 2, 7]) } else { r.range(300, 1800) };
+        let len = if k % 2 == 0 { pick(r, &[300u64, 1000, 1800, 1, 2, 7]) } else { r.range(300, 1800) | 1 };
         let number = r.range(0, 5 * d.halving);
-        let rew = match r.below(4) { 0 => scheduled(&d, number), 1 => len * r.range(1, 1 << 40), 2 => len * r.range(1, 1 << 40) + len - 1, _ => r.range(0, 1 << 58) };
+        let rew = match if k < 8 { k % 4 } else { r.below(4) } { 0 => scheduled(&d, number), 1 => len * r.range(1, 1 << 40), 2 => len * r.range(1, 1 << 40) + len - 1, _ => r.range(0, 1 << 58) };
         let (base, rem) = (rew / len, rew % len);
         let start = r.range(0, 1 << 40);
-        let secondary = match r.below(5) { 0 => d.secondary, 1 => 0, 2 => len - 1, 3 => len * r.range(1, 1 << 30), _ => r.range(0, 1 << 60) };
+        let secondary = match if k < 10 { k % 5 } else { r.below(5) } { 0 => d.secondary, 1 => 0, 2 => len - 1, 3 => len * r.range(1, 1 << 30), _ => r.range(0, 1 << 60) };
         let e = EpochExt::new_builder().number(number).start_number(start).length(len)
             .base_block_reward(Capacity::shannons(base)).remainder_reward(Capacity::shannons(rem)).build();
         let srem = secondary % len;
@@ -694,7 +694,7 @@ fn main() {
             let mut id = 0u64;
             gen_next(&mut out, &mut id, &mut r, n, level);
             gen_chains(&mut out, &mut id, &mut r, std::cmp::max(1, n / 20), if level > 0 { 8 } else { 2 });
-            gen_rewards(&mut out, &mut id, &mut r, std::cmp::max(n / 2, 6));
+            gen_rewards(&mut out, &mut id, &mut r, std::cmp::max(n / 2, 8));
             gen_halving(&mut out, &mut id, &mut r);
             gen_compact(&mut out, &mut id, &mut r, n / 2, level);
             gen_pow(&mut out, &mut id, &mut r, 512, level);
